@@ -96,8 +96,8 @@ def _absorb_tail_into_if(fn, known):
                 def last_branches(s_):
                     out = []
                     for blk in (s_.body, s_.orelse):
-                        if len(blk) == 1 and isinstance(blk[0], ast.If) and blk[0].orelse and blk is s_.orelse:
-                            out += last_branches(blk[0])      # elif chain
+                        if blk and isinstance(blk[-1], ast.If) and blk[-1].orelse:
+                            out += last_branches(blk[-1])     # elif chain / a branch that itself ends in an if/else: its leaves
                         else:
                             out.append(blk)
                     return out
